@@ -17,7 +17,7 @@ func init() {
 				"C10.plus6 (the round recorded is the parameter round-received + 6; both callers pass block.RoundReceived()), C10.accepted (WithNewPeer / WithRemovedPeer only under Accepted==true and the matching transaction type; the type switch covers every declared TransactionType), " +
 				"C10.lookup (PeerSetCache.Get returns the entry with the greatest round <= r; rounds kept sorted), C10.member (_witness true only for creators in the round's set; _stronglySee counts members of the given set only), " +
 				"C10.hash (Frame.Peers and BlockBody.PeersHash derive from the set of round-received; PeerSet.Hash folds the keys in slice order), C10.itx (internal transactions enter the pool only verified or self-signed), " +
-				"C10.immutable (a recorded set is never changed through a derived one: no append into a truncated view of another set's Peers slice, no element store into it), C10.firstround (a peer's first round is the minimum over the recorded sets whatever the order in which they are recorded), C10.latest (every store to core.validators takes the genesis set, the value just recorded with SetPeerSet, or a value derived from the whole peer-set history). NOT decided: equality of histories across nodes (follows from agreement)."},
+				"C10.immutable (a recorded set is never changed through a derived one or through a borrowed slice: no append into a truncated view of another set's Peers slice, no element store into it, no sort.* call whose argument is — through any chain of calls — the Peers slice of an existing set), C10.firstround (a peer's first round is the minimum over the recorded sets whatever the order in which they are recorded), C10.latest (every store to core.validators takes the genesis set, the value just recorded with SetPeerSet, or a value derived from the whole peer-set history). NOT decided: equality of histories across nodes (follows from agreement)."},
 		Rules: []ruleFunc{c10writers, c10plus6, c10accepted, c10lookup, c10member, c10hash, c10itx, c10latest, c10alias, c10immutable, func(p *Prog, r *Report) { firstRoundRule(p, r, "C10.firstround") }},
 	})
 }
@@ -762,8 +762,9 @@ func rootAlloc(v ssa.Value) *ssa.Alloc {
 // C10.immutable: sets recorded in the peer-set table are shared by reference. Deriving a new set
 // must not write into the backing array of the set it derives from: `x := ps.Peers[:0]; x =
 // append(x, …)` overwrites the parent's visible elements.
-func c10immutable(p *Prog, r *Report) {
-	const rule = "C10.immutable"
+func c10immutable(p *Prog, r *Report) { immutableRule(p, r, "C10.immutable") }
+
+func immutableRule(p *Prog, r *Report, rule string) {
 	r.Rule(rule, 1, "no in-place rewrite of another PeerSet's Peers slice (append into a truncated view, element store)")
 	fPeers := p.Field(PEER, "PeerSet", "Peers")
 	if fPeers == nil {
@@ -819,6 +820,45 @@ func c10immutable(p *Prog, r *Report) {
 	}
 	r.Check(len(bad) == 0, rule, "PeerSet.Peers:element-stores", "-", "", "no element of a set's Peers slice is overwritten", "elements of a PeerSet's Peers slice are overwritten: "+strings.Join(bad, ", "))
 	r.Note("%s: %d append sites deriving from a Peers slice examined (zero is legitimate: derivation by explicit copy)", rule, n)
+	// no library routine reorders a recorded set in place: the argument of sort.* never IS (a view of)
+	// the Peers slice of an existing set — wherever the call is (HTTP service, mobile bindings, …)
+	ns := 0
+	for _, fn := range p.Mod {
+		for _, b := range fn.Blocks {
+			for _, in := range b.Instrs {
+				ci, ok := in.(ssa.CallInstruction)
+				if !ok {
+					continue
+				}
+				f := calleeFunc(ci.Common())
+				if f == nil || f.Pkg() == nil || f.Pkg().Path() != "sort" || len(ci.Common().Args) == 0 {
+					continue
+				}
+				switch f.Name() {
+				case "Sort", "Stable", "Slice", "SliceStable":
+				default:
+					continue
+				}
+				ns++
+				arg := ci.Common().Args[0]
+				hit := ""
+				flowsFrom(arg, func(x ssa.Value) bool {
+					if fv, base := fieldOf(x); fv == fPeers && !isFreshBase(base) {
+						if xi, isIn := x.(ssa.Instruction); isIn {
+							hit = fnName(xi.Parent()) + "@" + p.ipos(xi)
+						} else {
+							hit = "?"
+						}
+						return true
+					}
+					return false
+				})
+				r.Check(hit == "", rule, fn.Name()+":sort-of-recorded-Peers", p.ipos(in), fnName(fn), "does not reorder a recorded set",
+					"a recorded validator set's Peers slice (loaded at "+hit+") is sorted in place: its order — and with it the peer-set hash this node puts into its next blocks and frames — changes on this node only")
+			}
+		}
+	}
+	r.Note("%s: %d sort calls examined", rule, ns)
 }
 
 func sameConst(a, b ssa.Value) bool {
